@@ -164,6 +164,8 @@ def truth_of(path, term):
 
 def result_of(ev):
     """the value term of an opaque call event"""
+    if "result" in ev.d:
+        return ev.d["result"]
     return ("call", ev.d["func"], ev.d["args"], ev.d["kwargs"], ev.d.get("site"))
 
 
